@@ -10,6 +10,7 @@ def T(name, q, th, th_shards=16, pkg="internal", race=False, q_timeout=300, th_t
     return d
 
 PROPS = {
+    "C01": dict(tests=[T("TestVerifC01", 1200, 12000, shrinktime="0s", gomaxprocs=[16, 4, 2, 16])]),
     "C02": dict(tests=[T("TestVerifC02Pipeline", 15000, 200000)]),
     "C03": dict(tests=[T("TestVerifC03Seq", 4000, 60000)]),
     "C04": dict(tests=[T("TestVerifC04Wheel", 20000, 300000), T("TestVerifC04Pipeline", 8000, 100000)]),
@@ -25,5 +26,6 @@ PROPS = {
     "C18": dict(tests=[T("TestVerifC18", 6000, 100000),
                        # the maphash.Comparable hasher (Go >= 1.24) is exercised with the newer toolchain in the thorough tier
                        dict(T("TestVerifC18", 6000, 50000, th_shards=8), go="go1.26.8", tiers=("thorough",), label="go1.26.8")]),
+    "C16": dict(tests=[T("TestVerifC16", 300, 4000, shrinktime="0s", gomaxprocs=[16, 4, 2, 16])]),
     "C17": dict(tests=[T("TestVerifC17", 20000, 150000)]),
 }
